@@ -339,4 +339,4 @@ PROPS = {
 # properties not (yet) claimed, each with a reason; entries disappear as checks are built
 NOT_APPLICABLE = {}
 
-HOOK_COMMITS = []
+HOOK_COMMITS = ["e57c3aa"]  # x/evm/statedb/verif_hooks.go: StateDB.VerifDirtyCount (read-only, build tag verif)
